@@ -329,4 +329,220 @@ theorem mergeBranches_ent (st : σ) {L R : Branch} {cL cR : Nat} {tL tR : T}
         rw [l2, r2]
         exact ⟨_, rfl⟩
 
+/-! ### the stack invariant -/
+
+/-- a stack entry with its ghost data: the depth `c` of the subtree's top node and the structural tree `t` -/
+structure GE where
+  b : Branch
+  c : Nat
+  t : T
+
+/-- the key-value pairs held by a stack, top first (= ascending keys) -/
+def flat (es : List GE) : List (Bytes × Bytes) := es.flatMap (fun e => e.t.toList)
+
+/-- the invariant of `from_set`'s two stacks (`nodes`, top first, and `proximities`, top first) -/
+def StackInv : List GE → List Nat → Prop
+  | [e], [] => Ent H e.b e.c e.t
+  | e :: e' :: es, p :: ps =>
+    Ent H e.b e.c e.t ∧ p = commonPrefixCount e.b.bits e'.b.bits ∧ p < e.c ∧ p < e'.c ∧
+      bytesLt e.b.bits e'.b.bits = true ∧ (∀ p', ps.head? = some p' → p' < p) ∧ StackInv (e' :: es) ps
+  | _, _ => False
+
+theorem StackInv.head_ent {e : GE} {es : List GE} {ps : List Nat} (h : StackInv H (e :: es) ps) :
+    Ent H e.b e.c e.t := by
+  cases es with
+  | nil => cases ps with
+    | nil => exact h
+    | cons _ _ => exact h.elim
+  | cons e' es => cases ps with
+    | nil => exact h.elim
+    | cons p ps => exact h.1
+
+/-- the entry `merge_branches` produces from two adjacent entries -/
+def mergedGE (e0 e1 : GE) : GE :=
+  ⟨⟨e0.b.bits, enc H (commonPrefixCount e0.b.bits e1.b.bits)
+      (.node (liftT e0.b.bits (commonPrefixCount e0.b.bits e1.b.bits) e0.c e0.t)
+             (liftT e1.b.bits (commonPrefixCount e0.b.bits e1.b.bits) e1.c e1.t))⟩,
+    commonPrefixCount e0.b.bits e1.b.bits,
+    .node (liftT e0.b.bits (commonPrefixCount e0.b.bits e1.b.bits) e0.c e0.t)
+          (liftT e1.b.bits (commonPrefixCount e0.b.bits e1.b.bits) e1.c e1.t)⟩
+
+/-- merging the two topmost entries keeps the invariant -/
+theorem merge_top (st : σ) {e0 e1 : GE} {es : List GE} {p0 : Nat} {ps : List Nat}
+    (h : StackInv H (e0 :: e1 :: es) (p0 :: ps)) :
+    ∃ (st' : σ) (M : GE), mergeBranches H S st e0.b e1.b = .ok (M.b, st') ∧ StackInv H (M :: es) ps ∧
+      M.b.bits = e0.b.bits ∧ M.c = p0 ∧ M.t.toList = e0.t.toList ++ e1.t.toList ∧ IsNode M.t := by
+  obtain ⟨he0, hp, hc0, hc1, hlt, hdec, hrest⟩ := h
+  have he1 : Ent H e1.b e1.c e1.t := StackInv.head_ent H hrest
+  subst hp
+  obtain ⟨st', hm, hent⟩ := mergeBranches_ent H S st he0 he1 hlt hc0 hc1
+  refine ⟨st', mergedGE H e0 e1, hm, ?_, rfl, rfl, ?_, ⟨_, _, rfl⟩⟩
+  · cases es with
+    | nil =>
+      cases ps with
+      | nil => exact hent
+      | cons _ _ => exact hrest.elim
+    | cons e2 es' =>
+      cases ps with
+      | nil => exact hrest.elim
+      | cons p1 ps' =>
+        obtain ⟨_, hp1, hc1', hc2, hlt12, hdec', hrest'⟩ := hrest
+        have hlt1 : p1 < commonPrefixCount e0.b.bits e1.b.bits := hdec p1 rfl
+        have he2 : Ent H e2.b e2.c e2.t := StackInv.head_ent H hrest'
+        have hu : commonPrefixCount e0.b.bits e2.b.bits = commonPrefixCount e1.b.bits e2.b.bits :=
+          cpc_ultra e0.b.bits e1.b.bits e2.b.bits (by rw [he0.len, he1.len]) (by rw [he1.len, he2.len])
+            (bytesLt_ne hlt) (bytesLt_ne hlt12) (by rw [← hp1]; exact hlt1)
+        refine ⟨hent, ?_, hlt1, hc2, bytesLt_trans _ _ _ hlt hlt12, hdec', hrest'⟩
+        show p1 = commonPrefixCount e0.b.bits e2.b.bits
+        rw [hu]; exact hp1
+  · simp only [mergedGE, Tree.toList, liftT_toList]
+
+/-- **the inner `while` of `from_set`** merges while the stored proximity exceeds the new leaf's, keeping the
+invariant; afterwards the topmost stored proximity is at most `lp` and the top subtree starts below `lp` -/
+theorem mergeWhile_inv (lp : Nat) : ∀ (ps : List Nat) (e0 : GE) (rest : List GE) (st : σ),
+    StackInv H (e0 :: rest) ps → lp < e0.c →
+    ∃ (e0' : GE) (rest' : List GE) (ps' : List Nat) (st' : σ),
+      mergeWhile H S lp ps ((e0 :: rest).map GE.b) st = .ok ((e0' :: rest').map GE.b, ps', st') ∧
+      StackInv H (e0' :: rest') ps' ∧ e0'.b.bits = e0.b.bits ∧ lp < e0'.c ∧
+      (∀ p', ps'.head? = some p' → p' ≤ lp) ∧ flat (e0' :: rest') = flat (e0 :: rest)
+  | [], e0, rest, st, h, hc => ⟨e0, rest, [], st, rfl, h, rfl, hc, (fun _ hp => by simp at hp), rfl⟩
+  | p :: ps, e0, rest, st, h, hc => by
+    cases rest with
+    | nil => exact h.elim
+    | cons e1 es =>
+      unfold mergeWhile
+      by_cases hgt : p > lp
+      · rw [if_pos hgt]
+        obtain ⟨st1, M, hm, hinv, hbits, hMc, hlist, _⟩ := merge_top H S st h
+        simp only [List.map_cons, hm]
+        obtain ⟨e0', rest', ps', st', hrun, hinv', hb', hc', hle, hflat⟩ :=
+          mergeWhile_inv lp ps M es st1 hinv (by rw [hMc]; exact hgt)
+        refine ⟨e0', rest', ps', st', ?_, hinv', by rw [hb', hbits], hc', hle, ?_⟩
+        · simpa only [List.map_cons] using hrun
+        · rw [hflat]
+          simp only [flat, List.flatMap_cons, hlist, List.append_assoc]
+      · rw [if_neg hgt]
+        exact ⟨e0, e1 :: es, p :: ps, st, rfl, h, rfl, hc,
+          fun p' hp' => by simp only [List.head?_cons, Option.some.injEq] at hp'; omega, rfl⟩
+
+/-- the branch `from_set` creates for a key-value pair -/
+def mkBranch (kv : Bytes × Bytes) : Branch :=
+  ⟨(Node.createLeaf H kv.1 kv.2).leafKey, Node.createLeaf H kv.1 kv.2⟩
+
+/-- ... and its ghost entry -/
+def leafGE (kv : Bytes × Bytes) : GE := ⟨mkBranch H kv, maxHeight, .leaf kv.1 (H kv.2)⟩
+
+theorem leafGE_ent (kv : Bytes × Bytes) (hk : kv.1.length = keyBytes) :
+    Ent H (leafGE H kv).b (leafGE H kv).c (leafGE H kv).t :=
+  ⟨rfl, hk, Or.inl ⟨H kv.2, rfl, rfl⟩, trivial, fun _ _ => rfl⟩
+
+/-- the pair as it appears in the structural tree: the value hashed -/
+def kvH (kv : Bytes × Bytes) : Bytes × Bytes := (kv.1, H kv.2)
+
+/-- **the outer loop of `from_set`** over the remaining leaves (descending keys, all below the top leaf) -/
+theorem scanLeaves_inv : ∀ (ls : List (Bytes × Bytes)) (k0 : Bytes × Bytes) (rest : List GE) (ps : List Nat) (st : σ),
+    StackInv H (leafGE H k0 :: rest) ps → k0.1.length = keyBytes →
+    (∀ kv ∈ ls, kv.1.length = keyBytes) →
+    List.Pairwise (fun x y : Bytes × Bytes => bytesLt y.1 x.1 = true) (k0 :: ls) →
+    ∃ (es' : List GE) (ps' : List Nat) (st' : σ),
+      scanLeaves H S (ls.map (mkBranch H)) ((leafGE H k0 :: rest).map GE.b) ps st = .ok (es'.map GE.b, st') ∧
+      StackInv H es' ps' ∧ es' ≠ [] ∧
+      flat es' = (ls.reverse.map (kvH H)) ++ flat (leafGE H k0 :: rest)
+  | [], k0, rest, ps, st, h, _, _, _ => ⟨leafGE H k0 :: rest, ps, st, rfl, h, by simp, by simp⟩
+  | kv :: ls, k0, rest, ps, st, h, hk0, hlen, hpw => by
+    have hmh := maxHeight_eq
+    have hkb := keyBytes_eq
+    have hkv : kv.1.length = keyBytes := hlen kv (List.mem_cons_self ..)
+    have hlt : bytesLt kv.1 k0.1 = true := (List.pairwise_cons.mp hpw).1 kv (List.mem_cons_self ..)
+    have hne : k0.1 ≠ kv.1 := fun e => bytesLt_ne hlt e.symm
+    obtain ⟨hlpl, _, _⟩ := cpc_spec k0.1 kv.1 (by rw [hk0, hkv]) hne
+    unfold scanLeaves
+    simp only [List.map_cons]
+    have hprox : Node.commonPathLength (leafGE H k0).b.node (mkBranch H kv).node = commonPrefixCount k0.1 kv.1 := by
+      simp [leafGE, mkBranch, Node.commonPathLength, Node.createLeaf, Node.isPlaceholder, Node.leafKey, Node.bytesLo]
+    rw [hprox]
+    obtain ⟨e0', rest', ps', st1, hrun, hinv, hbits, hc', hle, hflat⟩ :=
+      mergeWhile_inv H S (commonPrefixCount k0.1 kv.1) ps (leafGE H k0) rest st h
+        (by show commonPrefixCount k0.1 kv.1 < maxHeight; rw [hk0] at hlpl; omega)
+    have hrun' : mergeWhile H S (commonPrefixCount k0.1 kv.1) ps ((leafGE H k0).b :: rest.map GE.b) st =
+        .ok ((e0' :: rest').map GE.b, ps', st1) := by simpa only [List.map_cons] using hrun
+    rw [hrun']
+    simp only
+    have hbits' : e0'.b.bits = k0.1 := hbits
+    -- the invariant after pushing the new leaf
+    have hpush : StackInv H (leafGE H kv :: e0' :: rest') (commonPrefixCount k0.1 kv.1 :: ps') := by
+      refine ⟨leafGE_ent H kv hkv, ?_, ?_, hc', ?_, ?_, hinv⟩
+      · show commonPrefixCount k0.1 kv.1 = commonPrefixCount kv.1 e0'.b.bits
+        rw [hbits', cpc_comm]
+      · show commonPrefixCount k0.1 kv.1 < maxHeight
+        rw [hk0] at hlpl; omega
+      · show bytesLt kv.1 e0'.b.bits = true
+        rw [hbits']; exact hlt
+      · intro p' hp'
+        have hle' := hle p' hp'
+        -- strictness: `e0'.bits` has 1 at `lp` (it is above `kv`) and 0 at `p'` (it is below its right neighbour)
+        cases ps' with
+        | nil => cases hp'
+        | cons q ps'' =>
+          simp only [List.head?_cons, Option.some.injEq] at hp'
+          subst hp'
+          cases rest' with
+          | nil => exact hinv.elim
+          | cons e1' rest'' =>
+            obtain ⟨he0', hq, _, _, hlt01, _, hr⟩ := hinv
+            have he1' : Ent H e1'.b e1'.c e1'.t := StackInv.head_ent H hr
+            have b0 := (bytesLt_bit e0'.b.bits e1'.b.bits (by rw [he0'.len, he1'.len]) hlt01).1
+            have b1 := (bytesLt_bit kv.1 k0.1 (by rw [hkv, hk0]) hlt).2
+            rw [← hq, hbits'] at b0
+            rw [cpc_comm] at b1
+            have : q ≠ commonPrefixCount k0.1 kv.1 := by
+              intro e; rw [e] at b0; rw [b0] at b1; cases b1
+            omega
+    have hpw' : List.Pairwise (fun x y : Bytes × Bytes => bytesLt y.1 x.1 = true) (kv :: ls) :=
+      (List.pairwise_cons.mp hpw).2
+    obtain ⟨es', ps'', st', hrun2, hinv2, hne2, hflat2⟩ :=
+      scanLeaves_inv ls kv (e0' :: rest') (commonPrefixCount k0.1 kv.1 :: ps') st1 hpush hkv
+        (fun x hx => hlen x (List.mem_cons_of_mem _ hx)) hpw'
+    refine ⟨es', ps'', st', ?_, hinv2, hne2, ?_⟩
+    · have : (leafGE H kv).b = mkBranch H kv := rfl
+      simpa only [List.map_cons, this] using hrun2
+    · rw [hflat2]
+      simp only [flat, List.flatMap_cons, List.reverse_cons, List.map_append, List.map_cons, List.map_nil,
+        List.append_assoc] at hflat ⊢
+      rw [hflat]
+      simp [leafGE, kvH, Tree.toList]
+
+/-- **the final `while let Some(next) = nodes.pop()`**: everything left on the stack is merged into one entry -/
+theorem mergeStack_inv : ∀ (rest : List GE) (e0 : GE) (ps : List Nat) (st : σ), StackInv H (e0 :: rest) ps →
+    ∃ (M : GE) (st' : σ), mergeStack H S e0.b (rest.map GE.b) st = .ok (M.b, st') ∧ Ent H M.b M.c M.t ∧
+      M.t.toList = flat (e0 :: rest) ∧ (rest ≠ [] → IsNode M.t)
+  | [], e0, ps, st, h => ⟨e0, st, rfl, StackInv.head_ent H h, by simp [flat], fun h => absurd rfl h⟩
+  | e1 :: es, e0, ps, st, h => by
+    cases ps with
+    | nil => exact h.elim
+    | cons p0 ps =>
+      obtain ⟨st1, M, hm, hinv, _, _, hlist, hnode⟩ := merge_top H S st h
+      obtain ⟨M', st', hrun, hent, hl, hn⟩ := mergeStack_inv es M ps st1 hinv
+      refine ⟨M', st', ?_, hent, ?_, fun _ => ?_⟩
+      · simp only [List.map_cons, mergeStack, hm]
+        exact hrun
+      · rw [hl]
+        simp only [flat, List.flatMap_cons, hlist, List.append_assoc]
+      · cases es with
+        | nil =>
+          simp only [List.map_nil, mergeStack, Except.ok.injEq, Prod.mk.injEq] at hrun
+          have : M'.t.toList = M.t.toList := by rw [hl]; simp [flat]
+          -- with nothing left to merge the result IS `M`; its tree is read off the encoded node
+          rcases hent.shape with ⟨v, ht, hc⟩ | ⟨hn', _⟩
+          · exfalso
+            have h1 := hent.node
+            rw [← hrun.1] at h1
+            have h2 := (StackInv.head_ent H hinv).node
+            rw [h2] at h1
+            obtain ⟨l, r, hM⟩ := hnode
+            rw [hM, ht] at h1
+            simp [enc, Node.createNode] at h1
+          · exact hn'
+        | cons e2 es' => exact hn (by simp)
+
 end FuelVerif.SmtFromSet
